@@ -168,6 +168,8 @@ def apply(S, op, check):
                 s = op[3]
                 if other[s].oid is None:
                     return []
+                if e[s].otype is not None and other[s].otype is not None and e[s].otype != other[s].otype:
+                    return []           # the engine only merges the halves of ONE object (same type)
                 e[s] = other[s]
             elif k == "set_path":
                 s, p = op[2], op[3]
@@ -263,7 +265,8 @@ def main(tier):
                         "index invariants after every call (also after a call rejected by an assert); (b) the same invariants "
                         "after every transition of an engine exploration over the C01 history list",
                    technique="explicit-state BFS over state-level call sequences + invariant monitor on the engine exploration",
-                   assumptions=["field assignments are made with the preconditions the engine itself observes (a path needs an id)"])
+                   assumptions=["field assignments are made with the preconditions the engine itself observes (a path needs an id; a side "
+                                "state is only moved between entries of the same object type)"])
     rep.add_results(report.pmap(__name__, engine_jobs(tier), progress=500), part="engine-monitor")
     return rep.finish()
 
